@@ -115,6 +115,10 @@ func faultSpecs(tier string) []msggen.Spec {
 		if tier != "thorough" && s.Size > 4096 && (s.CT != "text" || s.Enc != "none") {
 			continue
 		}
+		// the 1 MiB class: two of the six type x coding combinations (a case costs several MiB of copying)
+		if s.Size >= 1<<20 && !(s.CT == "text" && s.Enc == "none" || s.CT == "binary" && s.Enc == "gzip") {
+			continue
+		}
 		out = append(out, s)
 	}
 	return out
@@ -249,12 +253,12 @@ func runFaultFamily(rep *lib.Report, tier string, workerCh chan *worker, only *r
 		}
 	}
 	return map[string]int64{
-		"fault_messages":                   int64(len(specs)),
-		"fault_cases":                      cases,
-		"fault_twins_failing":              faultsObserved,
-		"fault_cuts_not_observable":        notObservable,
-		"fault_pass_through_identical":     passThroughIdentical,
-		"fault_buffered_still_failing":     bufferedStillFailing,
-		"fault_transitions":                transitions,
+		"fault_messages":               int64(len(specs)),
+		"fault_cases":                  cases,
+		"fault_twins_failing":          faultsObserved,
+		"fault_cuts_not_observable":    notObservable,
+		"fault_pass_through_identical": passThroughIdentical,
+		"fault_buffered_still_failing": bufferedStillFailing,
+		"fault_transitions":            transitions,
 	}
 }
